@@ -527,9 +527,11 @@ int main(int argc, char ** argv) {
 			// Don't free folder -- owned by dirname
 		}
 
-		if (a_file->count == 1) {
+		if ((a_file->count == 1) && (folder == NULL)) {
 			// Must do this after realpath, b/c on some OS's (e.g. Travis-CI linux)
-			// this truncates a_file->filename[0]
+			// this truncates a_file->filename[0] -- and for the same reason it must
+			// be done only once: a second dirname() of the truncated name yields
+			// the parent of the document's folder
 			folder = dirname((char *) a_file->filename[0]);
 		}
 
